@@ -187,6 +187,7 @@ type GenOpts struct {
 	NoStruct       bool
 	NoMap          bool
 	TemplateNames  bool
+	CaseTwins      bool // some struct names differ from another one by the case of the first letter only
 	StructPool     *StructPool       // shared struct definitions (same name => same definition)
 	MaxAnonNest    int               // max directly nested anonymous tuples (0 = unlimited)
 	MinTuple       int               // minimum number of tuple members
@@ -201,8 +202,9 @@ var KeyKinds = []Kind{Bool, Int8, Uint8, Int16, Uint16, Int32, Uint32, Int64, Ui
 
 // StructPool hands out struct names so that a name always maps to one definition.
 type StructPool struct {
-	defs map[string]*Type
-	n    int
+	defs  map[string]*Type
+	n     int
+	Twins int // names which differ from another one by the case of the first letter only
 }
 
 // NewStructPool creates a pool.
@@ -315,6 +317,22 @@ func genType(rng *rand.Rand, o GenOpts, depth int, anon int) *Type {
 				name = fmt.Sprintf("%s%d", base, o.StructPool.n)
 				if o.TemplateNames && rng.Intn(4) == 0 {
 					name = fmt.Sprintf("%s%d<%s>", base, o.StructPool.n, GenIdent(rng, 5))
+				} else if o.CaseTwins && len(o.StructPool.defs) > 0 && rng.Intn(3) == 0 {
+					// a distinct identifier which differs from an existing name by the case of its first letter only
+					names := make([]string, 0, len(o.StructPool.defs))
+					for n := range o.StructPool.defs {
+						names = append(names, n)
+					}
+					sortStrings(names)
+					n := names[rng.Intn(len(names))]
+					twin := strings.ToUpper(n[:1]) + n[1:]
+					if twin == n {
+						twin = strings.ToLower(n[:1]) + n[1:]
+					}
+					if _, taken := o.StructPool.defs[twin]; !taken && twin != n && !strings.Contains(n, "<") && (o.BadName == nil || !o.BadName(twin)) {
+						name = twin
+						o.StructPool.Twins++
+					}
 				}
 				t := StructOf(name, fields, m...)
 				o.StructPool.defs[name] = t
